@@ -1,6 +1,6 @@
 (* C03 - Consistency proofs verify for every version pair and expose any fork.
    Only statements here; every proof is `exact <lemma of History/HistProofs.v>`. *)
-From QV Require Import Base.Util Base.HashSig History.HistModel History.HistSpec History.HistProofs.
+From QV Require Import Base.Util Base.HashSig History.HistModel History.HistSpec History.HistProofs History.HistChecked.
 
 Section C03.
   Variables D E V : Type.
@@ -57,7 +57,36 @@ Section C03.
     forall k d (c' : cache D), In (k, d) path -> c' k <> Some d ->
     incremental_roots D E V H c' s e <> (Some (root A s), Some (root A e)).
   Proof. exact (incremental_reject_altered_entry D E V H H_inj A st vs s e path). Qed.
+
+  (* (4') the verifier as it is since fix 10a81c4: an audit-path entry that is not a digest of the hasher's length
+     (okD) is treated as missing.  Whatever path c'' the server sends: if what the checked lookup finds for an entry
+     of the genuine proof is not that entry - it was altered, withheld, or has the wrong length - the proof is
+     rejected.  (An instance of (4): that theorem quantifies over every audit path.) *)
+  Variable okD : D -> bool.
+  Theorem C03_reject_altered_entry_length_checked (A : N -> E) (st : cache D) vs s e path :
+    StoreOK D E V H A st vs -> s <= e -> e <= vs ->
+    prove_consistency D E V H st s e = Some path ->
+    forall k d (c'' : cache D), In (k, d) path -> checked okD c'' k <> Some d ->
+    incremental_roots D E V H (checked okD c'') s e <> (Some (root A s), Some (root A e)).
+  Proof. exact (fun Hst Hse He Hp k d c'' => incremental_reject_altered_entry D E V H H_inj A st vs s e path Hst Hse He Hp k d (checked okD c'')). Qed.
+
+  (* in particular an entry of the wrong length is rejected whatever its bytes are *)
+  Theorem C03_wrong_length_entry_is_missing (c'' : cache D) k d' :
+    c'' k = Some d' -> okD d' = false -> checked okD c'' k = None.
+  Proof. exact (checked_bad_is_missing D okD c'' k d'). Qed.
+
+  (* the check at lookup time is the same as dropping the offending entries from the decoded path once (what the
+     executable model used by the correspondence runs does), for paths without duplicate keys - Go maps *)
+  Theorem C03_length_check_is_a_path_filter (p : list (pos * D)) : NoDup (map fst p) ->
+    forall k, checked okD (path_get p) k = path_get (wf_path okD p) k.
+  Proof. exact (checked_is_wf_path D okD p). Qed.
 End C03.
+
+(* the reason for the check: bytes moved between two neighbouring entries hash alike, under every hash function.
+   The concrete accepted forgery against the pinned verifier is Properties/C03_pinned_refuted.v. *)
+Theorem C03_moved_bytes_hash_alike (B : Type) (byte : N -> B) (Hb : list B -> list B) (a b : list B) (x : B) i h :
+  Hb (Layout.encG B byte (HFull (a ++ [x]) b i h)) = Hb (Layout.encG B byte (HFull a (x :: b) i h)).
+Proof. exact (hash_shift B byte Hb a b x i h). Qed.
 
 (* Non-vacuity: the premises are satisfiable (free term algebra as digests, events = their index). *)
 Definition Dt := term N unit.
@@ -78,3 +107,7 @@ Print Assumptions C03_incremental_sound.
 Print Assumptions C03_digest_determines_log.
 Print Assumptions C03_reject_replaced_digest.
 Print Assumptions C03_reject_altered_entry.
+Print Assumptions C03_reject_altered_entry_length_checked.
+Print Assumptions C03_wrong_length_entry_is_missing.
+Print Assumptions C03_length_check_is_a_path_filter.
+Print Assumptions C03_moved_bytes_hash_alike.
